@@ -162,7 +162,8 @@ def sf_obs(sf):
     try:
         charts = sf.charts
     except AttributeError:
-        charts = []
+        # a simfile handed out by a loader or constructor always has its list of charts
+        return ["SM" if isinstance(sf, SMSimfile) else "SSC", props_obs(sf), "the object has no charts attribute"]
     if isinstance(sf, SMSimfile):
         return ["SM", props_obs(sf), [sm_chart_obs(c) for c in charts]]
     return ["SSC", props_obs(sf), [props_obs(c) for c in charts]]
